@@ -53,6 +53,12 @@ ADD = {
  "C11": " Round 6: the position battery of C01/C02 with push_increase / push_decrease on queues of 4 094-131 072 elements.",
  "C14": " Round 6: a near miss replaced in place (same index tables, same length, same first and last slots as the source).",
  "C17": " Round 6: a capacity battery of 7 amounts from 65 537 to 8 388 608 elements through every capacity-taking constructor and every reservation call.",
+ "C04": " Round 6/7: operations carried out by a cleanup handler while an unrelated panic unwinds (std::thread::panicking() is true); a drop-glue battery (no value dropped twice under item / priority types with and without drop glue).",
+ "C08": " Round 6/7: references taken one at a time from iter_mut (nth, nth_back, rev().nth, find, rfind, a lone next_back) and written while the iterator is alive; operations inside a cleanup handler during an unrelated unwinding; the retain predicate of the huge-queue scripts has a memory and a call log.",
+ "C09": " Round 7: iter_mut of queues of 65 535-131 073 elements walked completely from both ends with every reference kept alive.",
+ "C10": " Round 7: one case in 6 000 pads the queue to 65 536-262 145 elements and sweeps the Ord::cmp crash points of the deep part of the sift path.",
+ "C13": " Round 7: every non-mutable iterator of queues of 65 535-131 073 elements walked completely from both ends with len()/size_hint() probed around 2^16.",
+ "C16": " Round 7: drop accounting of clear / drain under item and priority types with and without drop glue; clear / drain with 65 537-4 194 309 elements of capacity behind a handful of elements.",
  "C18": " Round 6: a sixth configuration, a BuildHasher whose hash_one is specialised differently from its streaming path (as ahash does).",
 }
 P = {k: (v[0], v[1] + ADD.get(k, ""), v[2]) for k, v in P.items()}
